@@ -259,8 +259,9 @@ func judge(v hs.Value, t hs.Type, m mode) Verdict {
 	if !ok {
 		return Verdict{MustNot: true, Tr: tr}
 	}
-	if m.JSON && !tr.NullOpt && hs.Conforms(r, t) && len(tr.Scalar) == 0 && !tr.Wrap && !tr.ObjAny {
-		// only JSON's null/none ambiguity was resolved: the document denotes a value of type T
+	if m.JSON && !tr.NullOpt && hs.Conforms(r, t) && len(tr.Scalar) == 0 {
+		// only JSON's notational ambiguities were resolved (null for null/none, the bare payload for
+		// Some(..), an object for {?}): the document denotes a value of type T
 		return Verdict{Must: true, Res: r, ValueKnown: true, Tr: tr}
 	}
 	return Verdict{May: true, Res: r, ValueKnown: !tr.ValueUnknown, Tr: tr}
@@ -299,6 +300,56 @@ func (v Verdict) convClass() string {
 
 // nonconf locates the first place where v fails to conform to t (no conversions): "opt>int<-str".
 func nonconf(v hs.Value, t hs.Type) string { return strictBlame(v, t, nil) }
+
+// resultBlame locates the first nonconformity of an admitted result r, walking the input v alongside:
+// a Some(..) in the result where the input had a bare value is reported as the step "wrap".
+func resultBlame(v, r hs.Value, t hs.Type, chain []string) string {
+	j := func(what string) string { return strings.Join(append(append([]string{}, chain...), what), ">") }
+	if hs.Conforms(r, t) {
+		return ""
+	}
+	switch t.K {
+	case hs.KOpt:
+		if o, ok := r.(hs.OptV); ok && o.Inner != nil {
+			if vo, ok := v.(hs.OptV); ok && vo.Inner != nil {
+				return resultBlame(vo.Inner, o.Inner, *t.Elem, append(chain, "some"))
+			}
+			return resultBlame(v, o.Inner, *t.Elem, append(chain, "wrap"))
+		}
+	case hs.KList:
+		if l, ok := r.(*hs.ListV); ok {
+			vl, _ := v.(*hs.ListV)
+			for i, e := range l.Elems {
+				if !hs.Conforms(e, *t.Elem) {
+					var ve hs.Value
+					if vl != nil && len(vl.Elems) == len(l.Elems) {
+						ve = vl.Elems[i]
+					}
+					return resultBlame(ve, e, *t.Elem, append(chain, "list"))
+				}
+			}
+		}
+	case hs.KObj:
+		if o, ok := r.(*hs.ObjV); ok && !o.Any {
+			vo, _ := v.(*hs.ObjV)
+			for _, f := range t.Fields {
+				fv, ok := o.M[f.Name]
+				if !ok {
+					return j("obj<-missing-field")
+				}
+				if !hs.Conforms(fv, f.T) {
+					var ve hs.Value
+					if vo != nil {
+						ve = vo.M[f.Name]
+					}
+					return resultBlame(ve, fv, f.T, append(chain, "obj"))
+				}
+			}
+			return j("obj<-extra-field")
+		}
+	}
+	return j(t.K.String() + "<-" + kindName(r))
+}
 
 func strictBlame(v hs.Value, t hs.Type, chain []string) string {
 	j := func(what string) string { return strings.Join(append(append([]string{}, chain...), what), ">") }
